@@ -1,6 +1,6 @@
 (* Property C18 — symbolized callables keep Python call semantics.
    Only statements and [exact]; definitions are in Model/Binding.v, proofs in Proofs/Binding*.v. *)
-From PG Require Import Common.Tactics Model.Binding Proofs.BindingMaps Proofs.BindingProofs Proofs.BindingSig Proofs.BindingReport.
+From PG Require Import Common.Tactics Model.Binding Proofs.BindingMaps Proofs.BindingProofs Proofs.BindingSig Proofs.BindingReport Proofs.BindingDirect Proofs.BindingClass.
 From Coq Require Import NArith.
 Local Open Scope N_scope.
 
@@ -71,3 +71,25 @@ Theorem C18_clone_json : forall q s ctor ov ie lates st0 st c o i,
   (has_va s = true -> smem (va_name s) (spec (json_state s st)) = smem (va_name s) (spec st)).
 Proof. exact clone_and_json_keep_effective_arguments. Qed.
 Print Assumptions C18_clone_json.
+
+(* The specification read directly: the direct call with the effective arguments gives every named
+   parameter its supplied value, else its default, else is a TypeError; *args receives the variadic
+   values and **kwargs the remaining names ([direct_bind] = [fill] over the parameters). *)
+Theorem C18_effective_call_meaning : forall s ctor lates c override ie, wf_sig s ->
+  spec_outcome s ctor lates c override ie =
+  match effective s ctor lates c override ie with
+  | Err x => Err x
+  | Ok e => direct_bind s (enamed e) (match evar e with Some l => l | None => [] end)
+  end.
+Proof. exact spec_outcome_meaning. Qed.
+Print Assumptions C18_effective_call_meaning.
+
+(* Symbolized classes: Object.__init__, rebinds and ClassWrapper._call_init (positional when the user
+   __init__ has *args, everything by keyword otherwise) give the user __init__ exactly the effective
+   arguments; a plain construction must be a complete call, a partial object stands for the
+   missing-argument TypeError. *)
+Theorem C18_class_wrapper : forall s ctor partial lates,
+  wf_sig s -> call_ok s ctor -> late_names_ok s lates ->
+  cls_bind s ctor partial lates = cls_spec s ctor partial lates.
+Proof. exact symbolized_class_binds_effective_arguments. Qed.
+Print Assumptions C18_class_wrapper.
